@@ -227,7 +227,17 @@ class Server:
                 f.write("\n")  # I like my JSON with a trailing newline
             while True:
                 with server:
-                    data = receive(server)
+                    try:
+                        data = receive(server)
+                    except (OSError, ValueError) as err:
+                        # The client went away before sending a complete request, or sent
+                        # something that is not a JSON object (not valid UTF-8, not JSON,
+                        # not a dict). Tell it if we still can and keep serving others.
+                        try:
+                            send(server, {"error": f"Invalid request: {err}", "final": True})
+                        except OSError:
+                            pass
+                        continue
                     sys.stdout = WriteToConn(server, "stdout", sys.stdout.isatty())
                     sys.stderr = WriteToConn(server, "stderr", sys.stderr.isatty())
                     resp: dict[str, Any] = {}
